@@ -11,18 +11,20 @@ STUBS = C26.FSTUBS + ['crash model: after each completed write/lseek of process 
 def run(ctx):
     kf = known_findings('C27'); defs = kf_defines(kf)
     C26.build_file(ctx, out='c26f.c')
-    # (k operations of process 1 drawn from ops, kp operations of process 2 drawn from pops)
-    q = [(2, 0x03, 1, 0x03)]
-    t = q + [(3, 0x03, 1, 0x03), (2, 0x03, 2, 0x03), (3, 0x07, 2, 0x03)]
-    for k, ops, kp, pops in (q if ctx.tier == 'quick' else t):
-        nrec = k + kp + 1
-        ctx.add(Harness('C27_crash_k%d_ops%02x_kp%d_pops%02x' % (k, ops, kp, pops), VERIF + '/harness/C27_crash.c',
-                        defines=defs + ['K=%d' % k, 'KP=%d' % kp, 'OPS=0x%x' % ops, 'POPS=0x%x' % pops, 'VF_MAXCOPY=8', 'VF_FS_CRASH=1', 'VF_FS_FSIZE=%d' % (16 * (nrec + 1))],
+    # (per-position op sets of process 1, kp operations of process 2 drawn from pops); the quick tier covers every 2-operation
+    # history of process 1 by four harnesses that fix the kind of each position (solved in parallel)
+    q = [((1, 1), 1, 0x03), ((1, 2), 1, 0x03), ((2, 1), 1, 0x03), ((2, 2), 1, 0x03)]
+    t = [((3, 3), 1, 0x03), ((3, 3), 2, 0x03), ((3, 3, 3), 1, 0x03), ((1, 7, 3), 1, 0x03), ((2, 7, 3), 1, 0x03), ((3, 3, 3), 2, 0x03)]
+    for sets, kp, pops in (q if ctx.tier == 'quick' else t):
+        k = len(sets); nrec = k + kp + 1; ops = 0
+        for s_ in sets: ops |= s_
+        ctx.add(Harness('C27_crash_%s_kp%d_pops%02x' % ('_'.join('%x' % s_ for s_ in sets), kp, pops), VERIF + '/harness/C27_crash.c',
+                        defines=defs + ['K=%d' % k, 'KP=%d' % kp, 'OPS=0x%x' % ops, 'POPS=0x%x' % pops, 'VF_MAXCOPY=8', 'VF_FS_CRASH=1', 'VF_FS_FSIZE=%d' % (16 * (nrec + 1))] + ['OPS%d=0x%x' % (i, s_) for i, s_ in enumerate(sets)],
                         unwind=nrec + 2, unwindset=C26.FUS + ['main.0:%d' % (k + 1), 'main.1:%d' % (kp + 1)],
                         timeout=1200 if ctx.tier == 'quick' else 3600, mem_gb=16, functions=FUN, stubs=STUBS, nochecks=(ctx.tier == 'quick'),   # pointer/overflow instrumentation (4x the formula) only in the thorough tier
-                        bounds='process 1: initialise on an empty directory + up to %d operations from op set 0x%02x {bit 0 message put, 1 control put, 2 get}, crash after any completed write/lseek or none; '
+                        bounds='process 1: initialise on an empty directory + up to %d operations, position i from op set %s {bit 0 message put, 1 control put, 2 get}, crash after any completed write/lseek or none; '
                                'process 2: initialise on the frozen files + %d operations from {message put, control put} with a symbolic probe get(1..6) + control get after reopen and after each operation; '
-                               'seqnums 0..6, payloads 1-2 symbolic bytes, control values <= 1000; FIX8_MAX_MSG_LENGTH scaled to %d' % (k, ops, kp, C26.MSGLEN),
+                               'seqnums 0..6, payloads 1-2 symbolic bytes, control values <= 1000; FIX8_MAX_MSG_LENGTH scaled to %d' % (k, [hex(s_) for s_ in sets], kp, C26.MSGLEN),
                         desc='real FilePersister: crash at every system-call boundary, reopen, oracle = reference built from the completed operations'))
     ctx.assumptions += ['operator new never fails', 'rb-tree rebalancing replaced by an unbalanced BST with the same in-order sequence',
                         'POSIX calls follow models/posixfs.c: no I/O errors, a write is atomic (torn writes not modelled), what a completed write put into the file survives the process crash (no power failure)',
